@@ -159,4 +159,31 @@ def crashClose (s : CS D) (h : Nat) (c : CloseCut) : CS D :=
     | some d, .walDirMoved => { fs := s.fs.set k.name (some { tmp := true }), sinks := [] }
     | none, _ => { s with sinks := [] }
 
+/-! ### operation sequences -/
+
+inductive COp (D : Type) where
+  | create (h name index term : Nat)
+  | wfull (h : Nat) (d : D) (wals : List Nat) (v : Verdict)
+  | winc (h : Nat) (wals : List Nat)
+  | close (h : Nat)
+  | cancel (h : Nat)
+  | setFull
+  | reopen
+  | crashClose (h : Nat) (c : CloseCut)
+  | reap (newName : Nat)
+
+/-- one API operation (Close with the full-needed re-check) and its result -/
+def stepOp (A : DbAlg D) (s : CS D) : COp D → CS D × String
+  | .create h n i t => (create s h n i t, "ok")
+  | .wfull h d ws v => writeFull s h d ws v
+  | .winc h ws => writeInc s h ws
+  | .close h => close true s h
+  | .cancel h => cancel s h
+  | .setFull => (setFull s, "ok")
+  | .reopen => reopen A s
+  | .crashClose h c => (crashClose s h c, "ok")
+  | .reap nn => reapOp A s nn
+
+def runOps (A : DbAlg D) (s : CS D) (ops : List (COp D)) : CS D := ops.foldl (fun s o => (stepOp A s o).1) s
+
 end RqModel.SnapCat
